@@ -12,6 +12,7 @@ structure EncSlot where
 structure DecSlot where
   st : DecState := DecState.empty
   eps : List Ep := []
+  last : List Packet := []
 
 structure DState where
   pkts : List (String × Packet) := []
@@ -45,11 +46,11 @@ def nat! (s : String) : Nat := s.toNat?.getD 0
 /-- decode one buffer on a decoder slot (capture-module path only; TECMP handled by caller) -/
 def decodeBuf (d : DecSlot) (b : Bytes) : DecSlot × List Packet :=
   if b.length < 8 then (d, [])
-  else if byteAt b 0 = 0 then (d, [])   -- TECMP: see `tecmp` op
+  else if byteAt b 0 = 0 then (d, tecmpDecode b)
   else
     let f := parseFrame b
     let r := step d.st f
-    ({ st := r.1, eps := if d.eps.contains f.ep then d.eps else f.ep :: d.eps }, r.2)
+    ({ d with st := r.1, eps := if d.eps.contains f.ep then d.eps else f.ep :: d.eps }, r.2)
 
 def insertSorted (x : Ep × Nat) : List (Ep × Nat) → List (Ep × Nat)
   | [] => [x]
@@ -110,13 +111,15 @@ def stepLine (s : DState) (w : List String) : DState × String :=
       | none => (s, "bad-op")
       | some b =>
         let r := decodeBuf slot b
-        ({ s with decs := upsert s.decs d r.1 }, showPackets r.2)
-    | ["null"] => (s, showPackets [])
+        ({ s with decs := upsert s.decs d { r.1 with last := r.2 } }, showPackets r.2)
+    | ["null"] => ({ s with decs := upsert s.decs d { slot with last := [] } }, showPackets [])
+    | ["reprint"] => (s, showPackets slot.last)
+    | ["destroy"] => ({ s with decs := upsert s.decs d { slot with st := DecState.empty, eps := [] } }, "ok")
     | ["feedlast", e] =>
       let frames := (lookup s.encs e).frames
       let r := frames.foldl (fun (acc : DecSlot × List Packet) b =>
         let r := decodeBuf acc.1 b; (r.1, acc.2 ++ r.2)) (slot, [])
-      ({ s with decs := upsert s.decs d r.1 }, showPackets r.2)
+      ({ s with decs := upsert s.decs d { r.1 with last := r.2 } }, showPackets r.2)
     | "feedsel" :: e :: items =>
       let frames := (lookup s.encs e).frames
       let r := items.foldl (fun (acc : DecSlot × List String) it =>
@@ -131,6 +134,10 @@ def stepLine (s : DState) (w : List String) : DState × String :=
       ({ s with decs := upsert s.decs d r.1 }, "sel " ++ " | ".intercalate r.2)
     | ["pending"] => (s, showPending slot)
     | _ => (s, "bad-op")
+  | ["tecmp", hx] =>
+    match parseBytes hx with
+    | none => (s, "bad-op")
+    | some b => (s, showPackets (tecmpDecode b))
   | _ => (s, "bad-op")
 
 partial def loop (h : IO.FS.Stream) (out : IO.FS.Stream) (s : DState) : IO Unit := do
